@@ -89,6 +89,7 @@ def run(ctx):
         for (t, bp, e) in fl:
             if 'planes_to_read' in t.params and 'geom' in t.params:
                 CAP.check_plane_reader(ctx, 'C11.3', t)
+                CAP.check_reduced_reader(ctx, 'C11.3', pr.func, t, e)
     fallback_rule(ctx, prods)
     ctx.floor('C11.2', 5)
     ctx.floor('C11.3', 8)
